@@ -9,8 +9,13 @@ case "$ID" in C16) RACE=-race ;; esac
 [ "$TIER" = thorough ] && case "$ID" in C05) RACE=-race ;; esac
 mkdir -p bin out
 BIN=bin/verif.$$
-trap 'rm -f "$BIN"' EXIT INT TERM
-if ! go build $RACE -tags verif -o "$BIN" ./cmd/verif >out/build.$$.log 2>&1; then
+MODFLAG=
+if [ -n "$VERIF_REPO" ]; then
+  # development aid only: build against a scratch copy of the repository instead of /repo
+  sed "s#=> /repo#=> $VERIF_REPO#" go.mod > out/alt.$$.mod && cp go.sum out/alt.$$.sum && MODFLAG="-modfile=out/alt.$$.mod"
+fi
+trap 'rm -f "$BIN" out/alt.$$.mod out/alt.$$.sum' EXIT INT TERM
+if ! go build $MODFLAG $RACE -tags verif -o "$BIN" ./cmd/verif >out/build.$$.log 2>&1; then
   cat out/build.$$.log
   echo "HARNESS-ERROR property=$ID build failed"
   rm -f out/build.$$.log
